@@ -49,6 +49,7 @@ func runC07(c *Ctx) {
 	c.rule("V3", "the guard returns an ErrCondition-kind error exactly on the IsClosed()==true side; no guarded function returns a nil error on the guard's failing side", 30)
 	c.rule("V4", "NewZipFileSystem/NewTarFileSystem give the opened archive file to the filesystem as its closeable resource; the constructor wraps it; VFS.Close closes it", 4)
 	c.rule("V8", "VFS.Close returns the outcome of closing its resource unfiltered (converted only): no kind of failure is turned into success", 1)
+	c.rule("V9", "file times are read from FileInfo.Sys() through the times library only inside a function that recovers: for the entries of an archive filesystem Sys() is the header of the entry, not what the operating system reports, and the library panics", 1)
 	c.rule("V5", "closeableResource.Close sets closed=true before every nil return; IsClosed returns that flag", 2)
 	c.rule("Z1", "zip walker: entry name = filepath.Rel(source, path) (+\"/\" for directories), Modified = info.ModTime(), content = the opened path copied whole into the entry writer", 5)
 	c.rule("Z3", "unzip: the name joined to the destination is the entry's zip.FileHeader.Name itself (charset transcoding aside)", 1)
@@ -66,6 +67,7 @@ func runC07(c *Ctx) {
 	c.c07GuardSemantics()
 	c.c07Wiring()
 	c.c07Resource()
+	c.c07TimesOfEntries()
 	c.c07ZipWalker()
 	c.c07UnzipTimes()
 	c.c07NamesVerbatim()
@@ -344,6 +346,53 @@ func (c *Ctx) c07Wiring() {
 		})
 		c.check(bad == "", "V8", fname(f)+"/outcome-unfiltered", c.pos(f.Pos()), "VFS.Close returns the (converted) outcome of closing the resource",
 			"what VFS.Close returns goes through "+bad+": a failure to close the resource — it does not mark itself closed then (see V5) — can come out as success, and a filesystem reported closed keeps serving Stat, Ls and (for the tar view) contents")
+	}
+}
+
+// c07TimesOfEntries (V9): "expose exactly the same paths, kinds, sizes …, refuse every mutating call without changing anything".
+// StatTimes, and everything built on it (garbage collection, a mutating call), reaches DetermineFileTimes with the FileInfo of
+// an archive entry. github.com/djherbis/times asserts that Sys() is the platform's stat structure: the call site must be
+// prepared for the panic.
+func (c *Ctx) c07TimesOfEntries() {
+	n := 0
+	for _, f := range c.srcFuncs(fsPkgRel) {
+		allInstrs(f, func(in ssa.Instruction) {
+			cl, ok := in.(*ssa.Call)
+			if !ok || !strings.HasSuffix(calleeFull(&cl.Call), "djherbis/times.Get") {
+				return
+			}
+			n++
+			c.FuncsSeen[fname(outermost(f))] = true
+			recovers := false
+			allInstrs(f, func(j ssa.Instruction) {
+				d, ok := j.(*ssa.Defer)
+				if !ok {
+					return
+				}
+				var lit *ssa.Function
+				switch v := d.Call.Value.(type) {
+				case *ssa.MakeClosure:
+					lit, _ = v.Fn.(*ssa.Function)
+				case *ssa.Function:
+					lit = v
+				}
+				if lit == nil {
+					return
+				}
+				allInstrs(lit, func(k ssa.Instruction) {
+					if rc, ok := k.(*ssa.Call); ok {
+						if b, isB := rc.Call.Value.(*ssa.Builtin); isB && b.Name() == "recover" {
+							recovers = true
+						}
+					}
+				})
+			})
+			c.check(recovers, "V9", fname(outermost(f))+"/times-from-sys", c.ipos(cl), "the function that asks the times library recovers",
+				"the times library is asked about a FileInfo whose Sys() may be anything (the header of a zip or tar entry): it asserts the platform's stat structure and panics — StatTimes on an archive filesystem panics, a garbage collection over it takes the process down from a worker goroutine")
+		})
+	}
+	if n == 0 {
+		c.info("V9", fsPkgRel+"/no-times-library", "-", "the times library is not used any more")
 	}
 }
 
